@@ -63,6 +63,26 @@ def gen_cases(ctx):
             else:
                 seq.append(rng.choice(alpha))
         cases.append((init, seq))
+    # directed family: save, then interleaved deletions of already-saved entries and new commands,
+    # then save again and reload (bookkeeping that tracks "what is already saved" by position or id
+    # goes wrong only after two or more deletions with additions in between)
+    good = [c for c in CMDS if valid_cmd(c) and trim(c)]
+    for _ in range(500 if ctx.quick else 4000):
+        k = rng.randrange(2, 5)
+        seq = [("N",)] + [("A", 0, rng.choice(good)) for _ in range(k)] + [("S", 0)]
+        nd = 0
+        for _ in range(rng.randrange(3, 8)):
+            if rng.random() < 0.55:
+                seq.append(("D", 0, rng.choice([1, 1, 2, 3, -1, -2])))
+                nd += 1
+            else:
+                seq.append(("A", 0, rng.choice(good)))
+        if rng.random() < 0.3:
+            seq.append(("T",))
+        seq += [("S", 0), ("N",)]
+        if rng.random() < 0.3:
+            seq += [("W", 1), ("N",)]
+        cases.append(([], seq))
     return cases, exhaustive_n
 
 
